@@ -221,6 +221,7 @@ def prop_C13(run):
     rules_unit.expected_at_cursor(run)
     rules_unit.src_bind(run)
     rules_unit.expr_node_spans(run)
+    rules_unit.parenthesized_span(run)
     rules_unit.line_column_counts(run)
     rules_unit.walker_text(run)
     import rules_sym
@@ -323,6 +324,7 @@ def prop_C12(run):
     rules_unit.unit(run, layout=True)
     rules_unit.src_bind(run)
     rules_unit.expr_node_spans(run)
+    rules_unit.parenthesized_span(run)
     rules_unit.addrspan_positions(run)
     rules_unit.line_column_counts(run)
     n = lim2_obligations(run, only=lambda key, f: "symbol_format" in key or "format_addrspan" in key)
